@@ -12,9 +12,11 @@
 (*   snd, rcv   "d" (dulwich) | "g" (C git): who sent / who received       *)
 (*   sstore, srefs   sender's store and advertised ref values (push: the   *)
 (*          values the pusher was asked to send)                           *)
-(*   r0, rtips0      receiver's store and ref values before                *)
-(*   r1, rtips1      ... after (projected from the directory by a fresh    *)
-(*          reader); rtips1 includes the wanted values after a fetch       *)
+(*   r0, rtips0, shal0   receiver's store, ref values and .git/shallow     *)
+(*          before                                                         *)
+(*   r1, rtips1, shal1   ... after (projected from the directory by a      *)
+(*          fresh reader); rtips1 includes the wanted values after a fetch *)
+(*   depth  0, or the depth of a depth-limited fetch / clone               *)
 (*   runk   number of objects in the receiver that are not objects of U    *)
 (*   idbad  number of objects whose bytes differ from the sender's         *)
 (*   gitok  1: git cat-file --batch-all-objects lists the same objects and *)
@@ -112,11 +114,15 @@ Judge(t) ==
         sent    == SeqSet(t.sent)
         ok      == t.ok = 1
         cap     == t.cap = 1
+        shal0   == SeqSet(t.shal0)
+        shal1   == SeqSet(t.shal1)
+        shallow == t.depth > 0 \/ shal0 # {} \/ shal1 # {}
         wcl     == Closure(U, wants)
+        wcut    == ClosureCut(U, shal1, wants)
         tagrefs == {g \in srefs : Kind(g) = "g"}
         auto    == IF t.inctag = 1
                    THEN UNION {TagChain(U, g) : g \in {x \in tagrefs : Peel(U, x) \in wcl}} ELSE {}
-        need    == Closure(U, SeqSet(t.rtips1) \cup (IF ok THEN wants ELSE {}))
+        need    == ClosureCut(U, shal1, SeqSet(t.rtips1) \cup (IF ok THEN wants ELSE {}))
         sndClause ==
             IF ~cap THEN "ok"
             ELSE IF t.sunk > 0 \/ ~(sent \subseteq sstore) THEN "SenderSound.store"
@@ -126,12 +132,12 @@ Judge(t) ==
         rcvClause ==
             IF ~(r0 \subseteq r1) THEN "NoLoss"
             ELSE IF t.idbad > 0 \/ t.runk > 0 THEN "Identity"
-            ELSE IF ok /\ ~(wcl \subseteq r1) THEN "ReceiverComplete.wants"
+            ELSE IF ok /\ ~(wcut \subseteq r1) THEN "ReceiverComplete.wants"
             ELSE IF ~(need \subseteq r1) THEN "ReceiverComplete.closed"
             ELSE IF t.gitok = 0 THEN "Identity.git"
             ELSE "ok"
         clause ==
-            IF ~Closed(U, sstore) \/ ~Closed(U, r0) \/ ~(Closure(U, SeqSet(t.rtips0)) \subseteq r0)
+            IF ~Closed(U, sstore) \/ ~ClosedCut(U, shal0, r0) \/ ~(ClosureCut(U, shal0, SeqSet(t.rtips0)) \subseteq r0)
                \/ ~(srefs \subseteq sstore) THEN "Antecedent"
             ELSE IF sndClause # "ok" THEN (IF t.snd = "g" THEN "SpecVsGit:" \o sndClause ELSE sndClause)
             ELSE IF rcvClause # "ok"
@@ -143,7 +149,7 @@ Judge(t) ==
                    ELSE <<0, <<>>>>
         haves   == IF t.srv # <<>> /\ ok THEN SeqSet(sr[2]) ELSE SeqSet(t.haves)
         hk      == t.hk = 1 \/ (t.srv # <<>> /\ ok)
-        mofOK   == \/ ~cap \/ ~hk \/ t.snd # "d" \/ ~ok
+        mofOK   == \/ ~cap \/ ~hk \/ t.snd # "d" \/ ~ok \/ shallow
                    \* get_tagged() returns {} when the backend repository has no .repo attribute
                    \* (a plain Repo behind FileSystemBackend): include-tag then adds nothing
                    \/ \E tg \in (IF t.inctag = 1 THEN TaggedChoices(U, tagrefs) \cup {<<>>} ELSE {<<>>}) :
@@ -155,14 +161,19 @@ Judge(t) ==
                    ELSE 0
         shape ==
             IF t.forged = 1 /\ ok THEN "ForgedWantAccepted"
-            ELSE IF sr[1] # 0 THEN "ServerDialogue@" \o ToString(sr[1])
-            ELSE IF cr # 0 THEN "ClientDialogue@" \o ToString(cr)
+            ELSE IF ~shallow /\ sr[1] # 0 THEN "ServerDialogue@" \o ToString(sr[1])
+            ELSE IF ~shallow /\ cr # 0 THEN "ClientDialogue@" \o ToString(cr)
             ELSE IF hk /\ ~(haves \subseteq (IF t.op = "push" THEN r0 ELSE r0 \cap sstore)) THEN "HavesSound"
             ELSE IF ~mofOK THEN "MofConform"
+            \* a depth-limited fetch into a repository that was not shallow delivers everything
+            \* down to the boundary find_shallow computes
+            ELSE IF ok /\ t.depth > 0 /\ shal0 = {}
+                    /\ ~(ClosureCut(U, DepthCut(U, wants, t.depth).edge, wants) \subseteq r1) THEN "DepthHonoured"
             ELSE IF cap /\ ok /\ ~(SeqSet(t.thin) \subseteq r0 \cup sent) THEN "ThinBases"
             ELSE "ok"
     IN  PrintT(<<"V", t.tid, clause, shape,
-                 IF clause \in {"ReceiverComplete.wants", "ReceiverComplete.closed"} THEN need \ r1
+                 IF clause = "ReceiverComplete.wants" THEN wcut \ r1
+                 ELSE IF clause = "ReceiverComplete.closed" THEN need \ r1
                  ELSE IF sndClause = "SenderSound.advertised" THEN sent \ Closure(U, srefs)
                  ELSE IF sndClause # "ok" THEN sent \ (wcl \cup auto)
                  ELSE IF shape = "MofConform" THEN <<sent, MofSent(U, sstore, haves, SeqSet(t.mwants), <<>>)>>
